@@ -88,10 +88,14 @@ FwdEffect(e) ==
   /\ told' = (IF phase = "fwd" THEN e.b ELSE told)
   /\ lost' = FALSE
   /\ wIcs' = (IF e.s = WORK /\ e.wi THEN <<n0, c1>> ELSE Empty)
-  /\ wDeps' = (IF e.s = WORK /\ e.wd THEN <<n0, c1>> ELSE Empty)
+  /\ wDeps' = (IF e.s = WORK /\ e.wd
+                 THEN (IF prof.allmem /\ ~IsEmpty(wDeps) /\ wDeps[2] = n0
+                         THEN <<wDeps[1], c1>>        \* SingleMemory keeps the dependencies of all steps
+                         ELSE <<n0, c1>>)
+                 ELSE (IF prof.allmem THEN wDeps ELSE Empty))
   /\ ram' = (IF e.s = RAM THEN Put(ram, n0, ck) ELSE ram)
   /\ disk' = (IF e.s = DISK THEN Put(disk, n0, ck) ELSE disk)
-  /\ cnt' = [cnt EXCEPT !.nF = @ + (IF Known /\ c1 > n0 THEN c1 - n0 ELSE 0),
+  /\ cnt' = [cnt EXCEPT !.nF = @ + (IF Known /\ c1 > n0 /\ c1 < Big THEN c1 - n0 ELSE 0),
                         !.nDW = @ + (IF e.s = DISK THEN 1 ELSE 0)]
   /\ UNCHANGED <<prof, maxN, adj, phase, pass, atEF>>
 
@@ -107,7 +111,7 @@ RevEffect(e) ==
   LET len == Max(e.a - e.b, 0) IN
   /\ adj' = Min(adj + len, NN)
   /\ wDeps' = (IF e.wi THEN Empty ELSE wDeps)
-  /\ cnt' = [cnt EXCEPT !.nR = @ + len]
+  /\ cnt' = [cnt EXCEPT !.nR = @ + (IF e.a < Big THEN len ELSE 0)]     \* embedded huge steps are not counted
   /\ UNCHANGED <<prof, maxN, fwd, told, wIcs, lost, ram, disk, phase, pass, atEF>>
 
 -----------------------------------------------------------------------------
